@@ -155,7 +155,7 @@ def synth_stream(rng):
         elif r < 0.61:
             toks.append({"type": "SerializeError", "data": " a  b "})
         elif r < 0.75:
-            toks.append({"type": "SpaceCharacters", "data": "".join(rng.choice(WS) for _ in range(rng.randint(1, 4)))})
+            toks.append({"type": "SpaceCharacters", "data": "".join(rng.choice(WS) for _ in range(rng.choice([0, 1, 1, 2, 3, 4])))})
         else:
             toks.append({"type": "Characters", "data": "".join(rng.choice(["a", "b", " ", "\t", "\n", "\x0c", "\r", "\x0b", "\xa0", " ", "　", "  "]) for _ in range(rng.randint(1, 8)))})
     return toks
